@@ -170,7 +170,14 @@ impl Property for P {
         og.custom_splitters = true;
         let gap = || (0..GAPS.len()).prop_map(|i| GAPS[i].to_string());
         (
-            gen::token_text(Mix::CLEAN.with_endings(3), tier.max_tokens()),
+            gen::token_text(
+                {
+                    let mut m = Mix::CLEAN.with_endings(3);
+                    m.esc_tricky = 2;
+                    m
+                },
+                tier.max_tokens(),
+            ),
             1usize..=6,
             gen::optspec(og),
             gap(),
